@@ -126,3 +126,21 @@ Fixpoint bad_run (evs : list event) (c : nat) : option nat :=
 Definition bad_ok (evs : list event) : Prop := bad_run evs 0 <> None.
 
 End WithOracles.
+
+(** ---- the DATA limits, as functions of the data lines the client sent (without the final dot line) ---- *)
+Definition stored (seen : list bytes) : bytes := concat (map (fun l => unstuff l ++ [LF]) seen).
+Definition wire (seen : list bytes) : bytes := concat (map (fun l => l ++ [CR; LF]) seen).
+Fixpoint szof (seen : list bytes) : N :=
+  match seen with [] => 0%N | l :: r => (N.of_nat (length (unstuff l)) + 2 + szof r)%N end.
+Definition rcv_line (l : bytes) : bool := negb (N.eqb (nth 0 l 0%N) DOT) && is_received l.
+Definition count_rcv (ls : list bytes) : nat := length (filter rcv_line ls).
+Fixpoint hdr_part (ls : list bytes) : list bytes :=
+  match ls with [] => [] | l :: r => match l with [] => [] | _ => l :: hdr_part r end end.
+
+(** verdict checker for one DATA payload, applied to the implementation's reply: a message answered 250 is within the size
+    limit by the server's counter and has at most MAXHOPS Received: lines in its header; one answered 552 really is over
+    the limit.  (554 has several causes and is left to the model comparison.)  Sound for the model: Proofs/DataProofs.v. *)
+Definition data_verdict_ok (maxb : N) (lines : list bytes) (code : N) : bool :=
+  if N.eqb code 250 then N.leb (szof lines) maxb && Nat.leb (count_rcv (hdr_part lines)) MAXHOPS
+  else if N.eqb code 552 then N.ltb maxb (szof lines)
+  else true.
